@@ -11,7 +11,7 @@ PROP = {'areas': [{'area': 'engine',
             'extra': ['100'],
             'only_prop': 'C01',
             'quick': 12000,
-            'thorough': 1000000,
+            'thorough': 2000000,
             'tie_fields': ['done', 'ops', 'uq', 'rq', 'hq', 'cur', 'pwco', 'ppub', 'pnon', 'nextid', 'outcome']}],
  'coq_target': 'Properties/C01.vo',
  'modelled': 'protocol.rs ProtocolState: handle_user_event, handle_network_event (opened / closed / incoming data / write completion), service '
